@@ -12,6 +12,15 @@ WC = 'mistral.workflow.base.WorkflowController'
 
 
 def run(ctx):
+    _run(ctx)
+    r6 = ctx.rule('R6', 'a partial rerun selects exactly the completed, '
+                  'unaccepted items (shared with C07.R10)',
+                  'DT (element predicates)')
+    from mstatic.rules import cmdcalc
+    cmdcalc.with_items_predicates(ctx, r6)
+
+
+def _run(ctx):
     prog, sd = ctx.prog, ctx.sd
     S = sd.consts
     completed = sd.pred_set('is_completed')
